@@ -87,7 +87,6 @@ func main() {
 	run.AddTLC(pm.Stat("entry points as stage pipelines: EntryAgreement, FamilyOfCode, Totality"))
 	// the pools also hold a sample of Select.tla's statement forms
 	run.Extra["model_statements_in_pools"] = gram.ExportForms(run)
-	defer os.Remove(os.Getenv("VERIF_EXTRA_STMTS"))
 	good, bad = stmts.Pools()
 	if len(good) < 10 || len(bad) < 30 {
 		core.Fatalf("statement pools too small")
